@@ -1,8 +1,58 @@
 (* C04 — a reply carrying an `error` member is never reported to the caller as success.
-   Only pinned statements; proofs are in Shapes/ReplyProofs.v. *)
-From ZV Require Import Shapes.Reply Shapes.Corpus.
+   Only pinned statements; proofs are in Shapes/ReplyProofs.v.  Model: Shapes/Reply.v (classify
+   mirrors read_connection.rs receive_reply; decoder mirrors serde's derived visitors). *)
+From ZV Require Import Shapes.Shapes Shapes.ShapesProofs Shapes.Reply Shapes.ReplyProofs Shapes.Corpus.
 
-(* Of the tree as pinned (Reply<P> had no guard against an `error` member): the property is false. *)
+(* For every JSON object (members in any order, duplicates allowed), every error shape and every
+   parameter shape of the shape language (unit, Value, all-optional structs, untagged enums, ...):
+   an object with an `error` member is never classified as a successful reply. *)
+Theorem C04_error_never_success :
+  forall (E P : shape) (ms : members),
+  has_member "error" ms -> forall r, classify E P (JObj ms) <> Success r.
+Proof. exact error_never_success. Qed.
+Print Assumptions C04_error_never_success.
+
+(* The same at the level of generated proxy methods (with or without output parameters): neither
+   Ok(Ok(_)) nor Err(MissingParameters) - the latter is how a success reply without parameters
+   surfaces. *)
+Theorem C04_proxy_error_never_ok :
+  forall (unit_out : bool) (E P : shape) (ms : members),
+  has_member "error" ms ->
+  match proxy_out unit_out E P (JObj ms) with POk _ | PMissing => False | _ => True end.
+Proof. exact proxy_error_never_ok. Qed.
+Print Assumptions C04_proxy_error_never_ok.
+
+(* Classification of objects without duplicate member names, for every error type as the
+   ReplyError derive generates it and every parameter shape, independent of member order
+   (spec_error / spec_opt_member only look members up by name):
+   - a standard service error exactly when the object names one with acceptable parameters;
+   - the method's error exactly when it is not that and the caller's error type recognises the
+     `error` member with acceptable parameters;
+   - a success exactly when there is no `error` member and `parameters` / `continues` are acceptable. *)
+Theorem C04_classification :
+  forall (E P : shape) (ms : members),
+  derived_error_shape E -> NoDup (keys ms) ->
+  (forall e, classify E P (JObj ms) = VarlinkError e <-> spec_error vs_error_shape ms = Some e) /\
+  (forall e, classify E P (JObj ms) = MethodError e <->
+             spec_error vs_error_shape ms = None /\ spec_error E ms = Some e) /\
+  (forall r, classify E P (JObj ms) = Success r <->
+             ~ has_member "error" ms /\
+             spec_error vs_error_shape ms = None /\ spec_error E ms = None /\
+             exists p c, spec_opt_member P "parameters" ms = Some p /\
+                         spec_opt_member SBool "continues" ms = Some c /\ r = RStruct [p; c]).
+Proof. exact classification. Qed.
+Print Assumptions C04_classification.
+
+(* ... as one equation: the model of receive_reply IS the order-free specification. *)
+Theorem C04_classify_is_spec :
+  forall (E P : shape) (ms : members),
+  derived_error_shape E -> NoDup (keys ms) ->
+  classify E P (JObj ms) = spec_classify E P ms.
+Proof. exact classify_spec. Qed.
+Print Assumptions C04_classify_is_spec.
+
+(* Of the tree as pinned (Reply<P> without the guard against an `error` member) the property was
+   false; witness = the property's own example, unit parameters. *)
 Theorem C04_refuted_before_b42f3c8 :
   exists E P ms, has_member "error" ms /\
                  decoder (SUntagged [vs_error_shape; E; reply_shape_unguarded P]) Direct (JObj ms)
@@ -12,3 +62,37 @@ Proof.
   split; [left; reflexivity | vm_compute; reflexivity].
 Qed.
 Print Assumptions C04_refuted_before_b42f3c8.
+
+(* A catch-all error alternative would not have been a repair: a duplicated `error` member makes
+   every struct/enum decoder fail with `duplicate field`, a catch-all included, and the frame
+   would still fall through to an unguarded success branch. *)
+Theorem C04_catch_all_insufficient :
+  let catch_all := SStruct [("error", SAny, FPlain)] in
+  decoder (SUntagged [vs_error_shape; E_simple; catch_all; reply_shape_unguarded P_unit]) Direct
+          (JObj [("error", JStr "a"); ("error", JStr "b")])
+  = Some (RAlt 3 (RStruct [RNone; RNone])).
+Proof. vm_compute. reflexivity. Qed.
+Print Assumptions C04_catch_all_insufficient.
+
+(* Non-vacuity: the corpus error types satisfy derived_error_shape; the hypotheses of the theorems
+   hold on concrete frames and the outcomes are the four different ones. *)
+Example C04_shapes_nonvacuous :
+  derived_error_shape E_simple /\ derived_error_shape E_renamed /\ derived_error_shape E_opts /\
+  derived_error_shape E_empty /\ derived_error_shape vs_error_shape.
+Proof. repeat split; eexists; split; reflexivity. Qed.
+
+Example C04_nonvacuous :
+  let f1 := [("parameters", JObj [("errno", JNum 5)]); ("error", JStr "io.systemd.System")] in
+  let f2 := [("parameters", JObj [("code", JNum 7); ("field", JStr "f")]); ("x", JNull);
+             ("error", JStr "org.example.E.Invalid")] in
+  let f3 := [("error", JStr "org.varlink.service.PermissionDenied"); ("parameters", JObj [])] in
+  let f4 := [("continues", JBool true); ("parameters", JObj [("errno", JNum 5)])] in
+  (has_member "error" f1 /\ NoDup (keys f1) /\ classify E_simple P_value (JObj f1) = DecodeError) /\
+  (NoDup (keys f2) /\ classify E_simple P_value (JObj f2) = MethodError (RVar 2 [RStr "f"; RInt 7])) /\
+  (NoDup (keys f3) /\ classify E_simple P_value (JObj f3) = VarlinkError (RVar 4 [])) /\
+  (NoDup (keys f4) /\ classify E_simple P_value (JObj f4)
+                      = Success (RStruct [RSome (RAny (JObj [("errno", JNum 5)])); RSome (RBool true)])).
+Proof.
+  cbv zeta. repeat split; try (vm_compute; reflexivity); try (right; left; reflexivity).
+  all: repeat constructor; cbn [In]; intros H; repeat destruct H as [H | H]; try discriminate; exact H.
+Qed.
